@@ -103,11 +103,28 @@ PairVerdict(ev) ==
 
 \* MODEL-DRIFT diagnostic (never a violation): the decodeOne calls observed through the hook are
 \* the tokens the operational model Decoder!Decode processes, in order, up to where it stops
+\* state of the operational decoder before token k (1-based) and after the last processed one
+StateAfter(fam, L, toks, k) ==
+  FoldLeft(LAMBDA st, i : LET r == DecodeOne(fam, L, st, toks[i]) IN [names |-> r.names, f |-> r.f],
+           InitState(fam, L), [i \in 1..k |-> i])
+SnapMatches(fam, L, sn, st) ==
+  LET names == NamesUpTo(fam, L)
+      codes == Split(sn.f, ",")
+  IN /\ Len(codes) = Len(names)
+     /\ \A i \in 1..Len(names) : codes[i] = st.f[names[i]]
+     /\ (IF sn.names = "" THEN {} ELSE Range(Split(sn.names, ","))) = st.names
 StepsVerdict(ev) ==
   LET r == Decode(ev.fam, ev.lvl, ev.s)
       toks == TokensOf(ev.fam, ev.s)
-  IN IF Len(ev.toks) = r.steps /\ (\A i \in 1..r.steps : ev.toks[i] = toks[i]) THEN "ok"
-     ELSE "drift:decodeOne was called " \o ToString(Len(ev.toks)) \o " times on '" \o ev.s \o "', the operational model takes " \o ToString(r.steps) \o " steps"
+      n == Len(ev.toks)
+  IN IF n # r.steps \/ (\E i \in 1..n : ev.toks[i] # toks[i])
+     THEN "drift:decodeOne was called " \o ToString(n) \o " times on '" \o ev.s \o "', the operational model takes " \o ToString(r.steps) \o " steps"
+     ELSE IF Len(ev.snaps) # n + 1 THEN "harness:snapshots per token"
+     ELSE IF \E k \in 1..(n + 1) : ~SnapMatches(ev.fam, ev.lvl, ev.snaps[k], StateAfter(ev.fam, ev.lvl, toks, k - 1))
+     THEN LET k == CHOOSE j \in 1..(n + 1) : ~SnapMatches(ev.fam, ev.lvl, ev.snaps[j], StateAfter(ev.fam, ev.lvl, toks, j - 1))
+          IN "drift:object state after " \o ToString(k - 1) \o " tokens of '" \o ev.s \o "' is (" \o ev.snaps[k].f \o " | " \o ev.snaps[k].names \o "), not what the operational model predicts"
+     ELSE IF ev.ok # r.ok THEN "drift:Decode verdict of the operational model on '" \o ev.s \o "'"
+     ELSE "ok"
 
 Verdict(ev) ==
   CASE ev.k = "dec" -> DecVerdict(ev)
